@@ -28,6 +28,8 @@ def _doc(i):
     return " ".join(d.split())[:1500]
 
 AUTO = {
+ "C06": ("TLA+ specs Present.tla (RFC 1035 5.1 lexer) and Zone.tla (zone-file denotation machine: origin, owner/TTL/class inheritance, $ORIGIN/$TTL/$INCLUDE/$GENERATE with modifiers): TLC model checking over line sequences + every behaviour exported with the records it denotes, rendered by the harness in several equivalent spellings and parsed by ZoneParser under each configuration + the renderings re-lexed by the spec + trace validation of random zones", "4/C06"),
+ "C07": ("TLA+ specs Present.tla / Zone.tla (safety side: sticky error, include gate and depth, nested $GENERATE ban, 65536 bound): TLC-enumerated hostile texts classified by the spec lexer + structured include/generate families replayed into ZoneParser under recover/time/allocation guards with an fs.FS wrapper counting opens + trace validation of next/err/open histories", "4/C07"),
  "C13": ("TLA+ spec Server.tla (one action per critical section of server.go; starter, serve loops, workers, shutdown caller, second starter, clients): TLC model checking of safety + liveness with 15 must-fail broken variants + tlc -simulate behaviours forced onto the real server through gate hooks (fakenet transports, quiescence from goroutine stacks, projection compared after each step) + trace validation of un-gated scenario runs (hook events numbered inside the critical sections), also in a -race build, goroutine/conn census", "4/C13"),
  "C01": ("TLA+ spec WireRR.tla (hand-written RFC wire layout table for all 80 registry types, EDNS0 options, SVCB keys, header/RCODE split; encoders, length arithmetic, reference decoder): TLC model checking + TLC-generated boundary vectors with expected octets replayed into Pack/Unpack/PackRR/UnpackRR + trace validation of random messages (EncMsg(msg) = bytes)", "4/C01"),
  "C08": ("TLA+ specs WireRR.tla (LenMsg, true length) and CompressLen.tla (PackImpl / LenImpl models of packDomainName and the length predictor): TLC model checking LenImpl >= PackImpl with the pointer limit lowered + vectors and recorded {msg, compress, len, packlen} events judged against the models; PackBuffer in-place clause observed", "4/C08"),
